@@ -32,6 +32,10 @@ pub trait KeyColl: KeyExpCollection<XKey, i32, i32> + Sized {
     fn from_snap(_s: &Snap) -> Option<Self> {
         None
     }
+    /// (tree) length of the free list according to the snapshot hook
+    fn free_slots(&self) -> Option<usize> {
+        None
+    }
 }
 
 impl KeyColl for KeyExpTree<XKey, i32, i32> {
@@ -118,6 +122,9 @@ impl KeyColl for KeyExpTree<XKey, i32, i32> {
         }
         Some(out)
     }
+    fn free_slots(&self) -> Option<usize> {
+        Some(self.verif_snapshot().unused.len())
+    }
     fn from_snap(s: &Snap) -> Option<Self> {
         use i_tree::key::verif::{VerifNode, VerifSnapshot};
         let nodes = s
@@ -156,12 +163,26 @@ pub enum KOp {
     Empty,
     Clear,
     Export { t: i32 },
+    /// insert(k, value k, expiration e, time t) for every k of lo..=hi, observed as one call;
+    /// ord: 0 ascending, 1 descending, 2 a fixed pseudo-random order
+    Bulk { lo: i32, hi: i32, e: i32, t: i32, ord: i32 },
+}
+
+/// the order in which a bulk run inserts its keys
+pub fn bulk_order(lo: i32, hi: i32, ord: i32) -> Vec<i32> {
+    let mut ks: Vec<i32> = (lo..=hi).collect();
+    match ord {
+        1 => ks.reverse(),
+        2 => Rng::new(lo as u64 * 31 + hi as u64).shuffle(&mut ks),
+        _ => {}
+    }
+    ks
 }
 
 impl KOp {
     pub fn time(&self) -> Option<i32> {
         match self {
-            KOp::Ins { t, .. } | KOp::Lt { t, .. } | KOp::Le { t, .. } | KOp::By { t, .. } | KOp::Get { t, .. } | KOp::Export { t } => Some(*t),
+            KOp::Ins { t, .. } | KOp::Lt { t, .. } | KOp::Le { t, .. } | KOp::By { t, .. } | KOp::Get { t, .. } | KOp::Export { t } | KOp::Bulk { t, .. } => Some(*t),
             _ => None,
         }
     }
@@ -175,6 +196,7 @@ impl KOp {
             KOp::Empty => "\"op\":\"empty\"".to_string(),
             KOp::Clear => "\"op\":\"clear\"".to_string(),
             KOp::Export { t } => format!("\"op\":\"export\",\"t\":{t}"),
+            KOp::Bulk { lo, hi, e, t, ord } => format!("\"op\":\"bulk\",\"lo\":{lo},\"hi\":{hi},\"e\":{e},\"t\":{t},\"ord\":{ord}"),
         }
     }
     pub fn to_path(&self) -> String {
@@ -187,6 +209,7 @@ impl KOp {
             KOp::Empty => "e".to_string(),
             KOp::Clear => "c".to_string(),
             KOp::Export { t } => format!("x {t}"),
+            KOp::Bulk { lo, hi, e, t, ord } => format!("b {lo} {hi} {e} {t} {ord}"),
         }
     }
     /// rebuild the call from a logged event line
@@ -201,6 +224,7 @@ impl KOp {
             "empty" => KOp::Empty,
             "clear" => KOp::Clear,
             "export" => KOp::Export { t: n("t")? },
+            "bulk" => KOp::Bulk { lo: n("lo")?, hi: n("hi")?, e: n("e")?, t: n("t")?, ord: n("ord")? },
             _ => return None,
         })
     }
@@ -216,6 +240,7 @@ impl KOp {
             "e" => KOp::Empty,
             "c" => KOp::Clear,
             "x" => KOp::Export { t: n(1) },
+            "b" => KOp::Bulk { lo: n(1), hi: n(2), e: n(3), t: n(4), ord: n(5) },
             other => panic!("unknown path op {other}"),
         }
     }
@@ -260,6 +285,7 @@ impl<'a, C: KeyColl> KeySession<'a, C> {
         self.c = Some(c);
         self.mine.clear();
         self.now = NO_TIME;
+        self.last_panicked = false;
         let sep = if snap.is_empty() { "" } else { "," };
         self.tr.line(&format!("\"ev\":\"reset\",\"coll\":\"{}\",\"cap\":{},\"se\":{}{}{}", C::NAME, cap, self.snap_every, sep, snap));
     }
@@ -353,6 +379,13 @@ impl<'a, C: KeyColl> KeySession<'a, C> {
                         now = NO_TIME;
                     }
                     KOp::Export { .. } => panic!("export inside a path"),
+                    KOp::Bulk { lo, hi, e, t, ord } => {
+                        for k in bulk_order(*lo, *hi, *ord) {
+                            c.insert(inst::probe(k, *e), k, *t);
+                            mine.push((k, *e));
+                        }
+                        now = *t;
+                    }
                 }
             }
             c
@@ -364,6 +397,7 @@ impl<'a, C: KeyColl> KeySession<'a, C> {
                 self.mine = c.stored().unwrap_or(mine);
                 self.c = Some(c);
                 self.now = now;
+                self.last_panicked = false;
             }
             _ => {
                 // replay the path again, this time logged, so that the failing call becomes an event
@@ -393,6 +427,7 @@ impl<'a, C: KeyColl> KeySession<'a, C> {
             Outcome::Ok(Some(c)) => {
                 self.mine = c.stored().unwrap_or_default();
                 self.c = Some(c);
+                self.last_panicked = false;
             }
             _ => return false,
         }
@@ -404,6 +439,11 @@ impl<'a, C: KeyColl> KeySession<'a, C> {
     /// performs one call on the real collection and logs it; returns false when the
     /// collection was consumed (export) or cannot be used further
     pub fn apply(&mut self, op: &KOp, arm: u64) -> bool {
+        // nothing more is asked of an instance that was consumed by an export or whose last call
+        // ended in a panic nobody injected (until the next reset / load)
+        if self.c.is_none() || self.last_panicked {
+            return false;
+        }
         self.opcount += 1;
         let desc = op.desc();
         if self.snap_every > 1 {
@@ -453,6 +493,21 @@ impl<'a, C: KeyColl> KeySession<'a, C> {
                         self.mine.push((*k, *e));
                         o
                     }
+                    KOp::Bulk { lo, hi, e, t, ord } => {
+                        let ks = bulk_order(*lo, *hi, *ord);
+                        inst::set_cmp_logging(false);
+                        let o = observe(arm, || {
+                            for k in &ks {
+                                c.insert(inst::probe(*k, *e), *k, *t);
+                            }
+                            0i64
+                        });
+                        inst::set_cmp_logging(true);
+                        for k in ks {
+                            self.mine.push((k, *e));
+                        }
+                        o
+                    }
                     KOp::Lt { t, p } => observe(arm, || c.first_less(*t, DEFAULT, inst::probe(*p, inst::NOEXP)) as i64),
                     KOp::Le { t, p } => observe(arm, || c.first_less_or_equal(*t, DEFAULT, inst::probe(*p, inst::NOEXP)) as i64),
                     KOp::By { t, th } => observe(arm, || c.first_less_or_equal_by(*t, DEFAULT, inst::by_theta(*th)) as i64),
@@ -474,7 +529,7 @@ impl<'a, C: KeyColl> KeySession<'a, C> {
                 };
                 if let Outcome::Ok(r) = &o.out {
                     match op {
-                        KOp::Ins { .. } | KOp::Clear => {}
+                        KOp::Ins { .. } | KOp::Clear | KOp::Bulk { .. } => {}
                         _ => {
                             let _ = write!(extra, ",\"res\":{}", r);
                         }
@@ -687,6 +742,150 @@ pub fn run_faults<C: KeyColl>(tr: &mut Trace, paths: &[(usize, Vec<KOp>)], keys:
 }
 
 /// seeded random in-contract histories
+/// Threshold sweep for the expiring-key collections: sizes and coincidences far outside the
+/// exhaustive universes, driven deterministically.
+///  A  fill until the arena is exactly full (7, 15, 23, 39 entries), clear, a few short-lived
+///     entries, queries while they expire one by one, export
+///  B  many entries that expire together plus long-lived survivors inserted first and last
+///     (low and high slots), queries and export after the mass expiry
+///  C  drain churn: hundreds of rounds in which the collection fills with one to three entries
+///     and is emptied again by lazy expiry; finally a few entries and an export (capacity)
+///  D  (deep > 0) `deep` ascending keys inserted as one bulk call: look-ups at the far end of a
+///     tree more than 2 * log2(n) levels deep, a query after all of them have expired (one call
+///     removes them all), and the export of a tree of that size
+pub fn run_scale<C: KeyColl>(tr: &mut Trace, seed: u64, rounds: &str, deep: i32) {
+    let mut rng = Rng::new(seed);
+    let mut s: KeySession<C> = KeySession::new(tr, 8, 0, 0);
+    let probes = |s: &mut KeySession<C>, t: i32, hi: i32| {
+        for p in 0..=hi {
+            s.apply(&KOp::Le { t, p }, 0);
+            s.apply(&KOp::Lt { t, p }, 0);
+            s.apply(&KOp::Get { t, k: p }, 0);
+            s.apply(&KOp::By { t, th: 2 * p + 1 }, 0);
+        }
+    };
+    if rounds.contains('A') {
+        for target in [7usize, 15, 23, 39] {
+            s.snap_every = 1;
+            s.reset([0usize, 1, 8][(seed as usize + target) % 3]);
+            let mut k = 0;
+            loop {
+                k += 1;
+                let v = s.next_value(k, 1000);
+                s.apply(&KOp::Ins { k, e: 1000, v, t: 0 }, 0);
+                let n = k as usize;
+                let full = s.c.as_ref().unwrap().free_slots().map_or(true, |f| f == 0);
+                if (n >= target && full) || n >= target + 40 {
+                    break;
+                }
+            }
+            s.apply(&KOp::Le { t: 0, p: k + 1 }, 0);
+            s.apply(&KOp::Clear, 0);
+            s.apply(&KOp::Empty, 0);
+            let exps = [1, 5, 1, 5, 2, 1000, 3, 2];
+            let mut order: Vec<usize> = (0..exps.len()).collect();
+            if seed % 2 == 1 {
+                rng.shuffle(&mut order);
+            }
+            for i in order {
+                let kk = i as i32 + 1;
+                let v = s.next_value(kk, exps[i]);
+                s.apply(&KOp::Ins { k: kk, e: exps[i], v, t: 0 }, 0);
+            }
+            for t in 0..=6 {
+                probes(&mut s, t, 9);
+            }
+            s.apply(&KOp::Export { t: 6 }, 0);
+        }
+    }
+    if rounds.contains('B') {
+        for n in [17, 40, 100] {
+            s.snap_every = if n > 48 { 8 } else { 1 };
+            s.reset(0);
+            let v = s.next_value(1000, 1000);
+            s.apply(&KOp::Ins { k: 1000, e: 1000, v, t: 0 }, 0);
+            let mut ks: Vec<i32> = (1..=n).collect();
+            match (seed + n as u64) % 3 {
+                1 => ks.reverse(),
+                2 => rng.shuffle(&mut ks),
+                _ => {}
+            }
+            for k in ks {
+                let v = s.next_value(k, 5);
+                s.apply(&KOp::Ins { k, e: 5, v, t: 0 }, 0);
+            }
+            for k in [500, 2000] {
+                let v = s.next_value(k, 1000);
+                s.apply(&KOp::Ins { k, e: 1000, v, t: 0 }, 0);
+            }
+            s.apply(&KOp::Get { t: 4, k: n / 2 }, 0);
+            // everything but the three survivors expires at 5
+            let first = [KOp::Le { t: 10, p: 1001 }, KOp::Get { t: 10, k: 500 }, KOp::Lt { t: 10, p: 2001 }, KOp::By { t: 10, th: 999 }][(seed % 4) as usize].clone();
+            s.apply(&first, 0);
+            for p in [0, 1, n / 2, n, 499, 500, 501, 1000, 1001, 2000, 2001] {
+                s.apply(&KOp::Get { t: 10, k: p }, 0);
+                s.apply(&KOp::Le { t: 10, p }, 0);
+                s.apply(&KOp::Lt { t: 10, p }, 0);
+            }
+            s.apply(&KOp::Export { t: 10 }, 0);
+        }
+    }
+    if rounds.contains('C') {
+        s.snap_every = 1;
+        s.reset(0);
+        let mut t = 0;
+        for round in 0..220 {
+            let cnt = 1 + (round % 3);
+            for j in 0..cnt {
+                let k = (round * 7 + j * 3) % 11 + 1;
+                if !s.live_dup(k, t) {
+                    let v = s.next_value(k, t + 1);
+                    s.apply(&KOp::Ins { k, e: t + 1, v, t }, 0);
+                }
+            }
+            t += 2;
+            match round % 4 {
+                0 => s.apply(&KOp::Le { t, p: 12 }, 0),
+                1 => s.apply(&KOp::Get { t, k: (round % 11) + 1 }, 0),
+                2 => s.apply(&KOp::Lt { t, p: 12 }, 0),
+                _ => s.apply(&KOp::By { t, th: 25 }, 0),
+            };
+            if round % 10 == 0 {
+                s.apply(&KOp::Empty, 0);
+            }
+        }
+        for k in 1..=5 {
+            let v = s.next_value(k, t + 100);
+            s.apply(&KOp::Ins { k, e: t + 100, v, t }, 0);
+        }
+        s.apply(&KOp::Export { t }, 0);
+    }
+    if rounds.contains('D') && deep > 0 {
+        let n = deep;
+        // (1) a deep tree of live entries: look-ups at both ends, export of all of them
+        s.snap_every = 1 << 40;
+        s.reset(0);
+        s.apply(&KOp::Bulk { lo: 1, hi: n, e: 1000, t: 0, ord: 0 }, 0);
+        for p in [n, n - 1, n / 2, 1, 0, n + 1] {
+            s.apply(&KOp::Get { t: 1, k: p }, 0);
+            s.apply(&KOp::Le { t: 1, p }, 0);
+            s.apply(&KOp::Lt { t: 1, p }, 0);
+        }
+        s.apply(&KOp::Export { t: 1 }, 0);
+        // (2) the same size, all stale at once between two survivors
+        s.reset(0);
+        let v = s.next_value(0, 1000);
+        s.apply(&KOp::Ins { k: 0, e: 1000, v, t: 0 }, 0);
+        s.apply(&KOp::Bulk { lo: 1, hi: n, e: 5, t: 0, ord: (seed % 2) as i32 }, 0);
+        let v = s.next_value(n + 1, 1000);
+        s.apply(&KOp::Ins { k: n + 1, e: 1000, v, t: 0 }, 0);
+        s.apply(&KOp::Le { t: 10, p: n }, 0);
+        s.apply(&KOp::Get { t: 10, k: n + 1 }, 0);
+        s.apply(&KOp::Get { t: 10, k: n / 2 }, 0);
+        s.apply(&KOp::Export { t: 10 }, 0);
+    }
+}
+
 pub struct RandCfg {
     pub seed: u64,
     pub keys: i32,
